@@ -266,7 +266,7 @@ static LinkedList *bufr_expand_desc( int desc, int flags, BUFR_Tables *tbls, int
    {
    EntryTableD   *etblD;
    LinkedList    *lst, *lst1;
-   int           i, count;
+   int           i, j, count;
    int           code;
    BufrDescriptor  *bcd;
    int  f;
@@ -301,6 +301,28 @@ static LinkedList *bufr_expand_desc( int desc, int flags, BUFR_Tables *tbls, int
                   code, desc );
             bufr_print_debug( errmsg );
             return NULL;
+            }
+/*
+ * ... and within every replication of the sequence it lies in: expanding replications 
+ * that overlap would never come to an end
+ */
+         for (j = 0; j < i ; j++ )
+            {
+            int codej = etblD->descriptors[j];
+            if (DESC_TO_F( codej ) == 1)
+               {
+               int endj = j + DESC_TO_X( codej ) + ((DESC_TO_Y( codej ) == 0) ? 1 : 0);
+               if ((endj >= i) && (i + span > endj))
+                  {
+                  char errmsg[256];
+
+                  if (errflg) *errflg = 1;
+                  sprintf( errmsg, _("Error: replication %d runs past the end of replication %d in Table D sequence %d\n"), 
+                        code, codej, desc );
+                  bufr_print_debug( errmsg );
+                  return NULL;
+                  }
+               }
             }
          }
       }
